@@ -121,7 +121,7 @@ Theorem is_url_tld tlds e o s : tld_aware o = true -> is_url_in tlds e o s = Ok 
 Proof.
   intros T. unfold is_url_in. destruct (strip s) as [|c t] eqn:Es; [discriminate|].
   destruct (_ && _ && _); [discriminate|]. destruct (url_pattern_match o (c :: t)); [|discriminate]. cbn [negb].
-  rewrite T. unfold tld_check. destruct (safe_urlsplit e (c :: t)) as [r|x]; [|discriminate]. cbn [bind].
+  rewrite T. unfold tld_check. destruct (safe_urlsplit e (c :: t)) as [r|[]]; try discriminate. cbn [bind].
   intros H. exists r. split; [reflexivity|].
   destruct (hostname r) as [h|]; cbn [bind] in H.
   - destruct (is_valid_tld_in tlds e (last_label h)) as [[|]|x] eqn:V; cbn [bind] in H; try discriminate.
